@@ -717,7 +717,17 @@ def r13_13_bucket_providers_build_fresh_buckets(ctx: Ctx) -> RuleResult:
             if not rets:
                 rr.fail(f.qual, f"bucket provider `{unparse(prov)[:60]}` not resolved to a local function or lambda (not decided)", ctx.loc(f, n))
             elif all(isinstance(r, ast.Call) for r in rets):
-                rr.ok({"builder in": f.qual, "provider returns": unparse(rets[0])[:60]})
+                # the constructor that is called must itself build a new object: a memoised factory hands out the same bucket
+                cached = None
+                for r in rets:
+                    tg, how = ctx.R.callees(r, f, count=False)
+                    for t in (tg if how == "resolved" else []):
+                        if any("cache" in d for d in t.decorators):
+                            cached = t
+                if cached is not None:
+                    rr.fail(f.qual, f"the bucket provider calls {cached.qual}, which is memoised ({sorted(cached.decorators)}): every parse with the same template gets the same bucket object", ctx.loc(cached))
+                else:
+                    rr.ok({"builder in": f.qual, "provider returns": unparse(rets[0])[:60]})
             else:
                 bad = next(r for r in rets if not isinstance(r, ast.Call))
                 rr.fail(f.qual, f"the bucket provider returns `{unparse(bad)[:60]}`, an object created outside the provider: every parse of the pattern shares it, so fields left by one text are seen by the next", ctx.loc(f, n))
